@@ -359,8 +359,13 @@ def _f14(case):
 MATCHERS = {'F10': _f10, 'F14': _f14}
 
 
-def _collect(v, res, byid):
+def _collect(v, res, byid, only=None):
+    """only: clause-name prefixes this property judges (None = all); other failing clauses are counted, not reported"""
     for tid, fails in res.fails.items():
+        if only is not None:
+            kept = [c for c in fails if c.startswith(only) or c.startswith('UNJUDGED')]
+            v.extra['clauses_left_to_C06'] = v.extra.get('clauses_left_to_C06', 0) + (len(fails) - len(kept))
+            fails = kept
         if not fails:
             continue
         e = byid[tid]
@@ -449,7 +454,9 @@ def run_C19(tier, seed):
     v.traces = len(progs) + len(ctor_events)
     v.evaluations = sum(len(p['steps']) for p in progs) + len(ctor_events)
     byid = {e['id']: e for e in progs}
-    _collect(v, res, byid)
+    # C19 is about validity of every live object (and that a raising step changes nothing); whether a returned magnitude or the
+    # error class is the right one is C06's statement (Outcome_* clauses), so a C06 finding (F10) is not a C19 alarm
+    _collect(v, res, byid, only=('LiveObjectInvalid', 'HeapChange_'))
     cb = {e['id']: e for e in ctor_events}
     for tid, fails in res2.fails.items():
         if fails:
